@@ -2415,9 +2415,12 @@ impl Fs {
     /// List entries in a directory.
     /// Returns paths of files, directories, and symlinks that are direct children of the given path.
     pub(crate) fn dir_entries(&self, path: &Path) -> Vec<PathBuf> {
-        use std::collections::HashSet;
+        // Insertion-ordered so that listings are deterministic: a `HashSet`
+        // is keyed per instance and returned a different order on every
+        // call, which broke seed-for-seed reproducibility of `read_dir`.
+        use indexmap::IndexSet;
 
-        let mut entries: HashSet<PathBuf> = HashSet::new();
+        let mut entries: IndexSet<PathBuf> = IndexSet::new();
 
         // Add persisted files in this directory
         for file_path in self.persisted_files.keys() {
